@@ -1,7 +1,8 @@
 ---------------------------- MODULE BugQuery_Trace ----------------------------
 (* Judges what the real BugQuery did (drivers/c37_bugquery.py).
-   {tid, i, ev:"render", expr, refused, ps}             ps = params() of the search `expr` denotes
-   {tid, i, ev:"batch",  expr, base, max, ps, bs}       bs = params() of every batch of batches(base, max)
+   {tid, i, ev:"render", expr, refused, raised, ps}       ps = params() of the search `expr` denotes
+   {tid, i, ev:"batch",  expr, base, max, raised, ps, bs} bs = params() of every batch of batches(base, max)
+   raised = name of an unexpected exception ("" if none)
    expr is a search expression (BugQuery.tla, "search expressions"); parameters are
    [k, n, key, v, iv, len] (len = length of the parameter's own urlencoding).                  *)
 EXTENDS BugQuery, TraceLib
@@ -31,8 +32,10 @@ JudgeParams(expr, q, ps) ==
               \/ \A bug \in SUBSET pairs : QHolds(ParsePairs(ps), parsed, bug) = ExprHolds(expr, bug)
            THEN {} ELSE {"Semantics"})
 
+\* an exception other than the documented refusal is a failure of the code, judged like any other
 JudgeRender(e) ==
   IF ~InDomain(e.expr) THEN {"OutsideDomain"}
+  ELSE IF e.raised # "" THEN {"Render_Raised"}
   ELSE LET d == Den(e.expr)
        IN IF ~d.ok THEN (IF e.refused THEN {} ELSE {"AnyOf_SimpleDropped"})
           ELSE IF e.refused THEN {"SpuriousRefusal"}
@@ -40,6 +43,7 @@ JudgeRender(e) ==
 
 JudgeBatch(e) ==
   IF ~InDomain(e.expr) \/ ~Den(e.expr).ok THEN {"OutsideDomain"}
+  ELSE IF e.raised # "" THEN {"Batch_Raised"}
   ELSE LET q == Den(e.expr).q
            axes == Axes(q)
            fails == [a \in axes |-> BatchFails(e.ps, e.bs, a, e.base, e.max)]
